@@ -101,6 +101,7 @@ def execute(plan):
         "events": len(history["events"]),
         "vtime": sum(e["vtime"] for e in history["endings"]),
         "steps": sum(e["steps"] for e in history["endings"]),
+        "max_spin": max([e.get("max_steps_without_await", 0) for e in history["endings"]] or [0]),
         "endings": [e["how"] for e in history["endings"]],
         "errors": [(e["how"], (e.get("error") or "")[:300]) for e in history["endings"] if e["how"] not in ("completed", "crashed")],
         "trigger": trigger,
@@ -397,6 +398,7 @@ def aggregate(prop, plans, results, report, known):
         agg["vtime"] += result["vtime"]
         agg["steps"] += result["steps"]
         agg["max_steps"] = max(agg.get("max_steps", 0), result["steps"])
+        agg["max_spin"] = max(agg.get("max_spin", 0), result.get("max_spin", 0))
         agg["max_wall"] = max(agg.get("max_wall", 0.0), result["wall"])
         agg["wall_child"] += result["wall"]
         agg["ilv"].add(result["ilv"])
@@ -471,6 +473,7 @@ def coverage_of(prop, tier, plans, results, skipped, agg, wall_s, ndet, mism):
         "simulated_seconds": round(agg["vtime"], 2),
         "loop_steps": agg["steps"],
         "max_loop_steps_in_one_run": agg.get("max_steps", 0),
+        "max_traversal_steps_without_await": agg.get("max_spin", 0),
         "max_wall_s_of_one_run": round(agg.get("max_wall", 0.0), 1),
         "runs_per_hour": int(runs / max(wall_s, 1e-6) * 3600),
         "seeds": {"first": plans[0]["seed"] if plans else None, "last": plans[-1]["seed"] if plans else None,
